@@ -94,7 +94,22 @@ func catch(r *Res) {
 			return
 		}
 		r.Site = panicSite()
-		r.Panic = Trunc(fmt.Sprint(p), 400)
+		full := fmt.Sprint(p)
+		if i := strings.Index(full, "Original stacktrace:"); i >= 0 {
+			// a panic re-thrown by the expression evaluator: classify by the original stack
+			for _, l := range strings.Split(full[i:], "\n") {
+				if strings.HasPrefix(l, "github.com/osteele/liquid") && !strings.Contains(l, "Evaluate.func1") && !strings.Contains(l, "verifhook") {
+					fn := strings.TrimPrefix(l, "github.com/osteele/liquid")
+					if j := strings.LastIndex(fn, "("); j > 0 {
+						fn = fn[:j]
+					}
+					r.Site = fn
+					break
+				}
+			}
+			full = full[:i]
+		}
+		r.Panic = Trunc(full, 400)
 		if r.Panic == "" {
 			r.Panic = "(empty panic value)"
 		}
